@@ -38,7 +38,7 @@ TOKEN = re.compile(
 INSERTS = ["(", ")", "[", "]", "{", "}", "?", ":", ",", ".", "&&", "||", "!", "-", "+", "*", "/", "%", "==", "<", "in", "'", '"', "'''", '"""', "\\", "\n", "\t", " ", "//", "0x", "1e", "1.", "u", "b'", "r\"", "$", "@", "#", "~", "^", "&", "|", "=", ";", "`", "\x00", "\x7f", "\u00e9", "\u4e2d", "\U0001f431", "\ufeff", "\u2028", "\r", "\r\n", "\x0c", "true", "null", "has", "as", "if", "return", "9999999999999999999999"]
 
 ILL_FORMED = [
-    "[1].filter(.e, false)", "[1].map(.e, .e)", "1 in in[1]", "null.map(x, x)", "1.map(x, x)", "'abc'.map(x, x)", "[1].map(x)", "[1].map()", "[1].map(1, 2)", "[1].map(x.y, 1)", "[1].map(x, x, x)", "[1].filter()",
+    "[1].filter(.e, false)", "[1].map(.e, .e)", "1 in in[1]", "x && '''" + "ab\r" * 40, "null.map(x, x)", "1.map(x, x)", "'abc'.map(x, x)", "[1].map(x)", "[1].map()", "[1].map(1, 2)", "[1].map(x.y, 1)", "[1].map(x, x, x)", "[1].filter()",
     "[1].all(1, true)", "[1].exists('a', true)", "[1].exists_one()", "[1].exists_one(x)", "{}.map(x, x)", "{1: 2}.filter(k, k)", "[1].map([x], 1)",
     "[1].map(x + 1, x)", "[1].map(x(), x)", "[1].reduce(r, i, 0, r + i)", "[1].reduce()", "[1].reduce(r, i)", "[1].min()", "[].min()", "['a', 1].min()", "[null].min()",
     "has()", "has(1)", "has(x)", "has(x, y)", "has(1.f)", "has([1][0])", "has({}.a.b)", "has(null.a)", "has('a'.b)", "has(x.y)", "has({'a': 1}.a, 1)",
@@ -187,6 +187,21 @@ def compile_timeout(acc, env, src, origin):
     if unterminated and src.count("\\") >= 10:
         acc.violation("compile-timeout unterminated-literal-with-escapes", f"compile({src[:60]!r}...) did not finish within 6 s", {"kind": "compile", "src": src})
         return False
+    # second signature of the same defect: inside an unterminated triple-quoted literal every line break matches two alternatives of the
+    # MLSTRING_LIT pattern (`\r` / `\n` and `.`), so the lexer doubles its work per line break.  Attributed only when the same text
+    # with the line breaks after the opening quotes replaced by blanks compiles (or is rejected) at once.
+    for q in ('"""', "'''"):
+        if src.count(q) % 2 == 1:
+            head_, tail_ = src[: src.rindex(q) + 3], src[src.rindex(q) + 3 :]
+            if sum(tail_.count(c) for c in "\r\n") >= 12:
+                try:
+                    guarded_compile(env, head_ + tail_.replace("\r", " ").replace("\n", " "), 6)
+                except CompileTimeout:
+                    break
+                except Exception:
+                    pass
+                acc.violation("compile-timeout unterminated-multiline-literal-with-line-breaks", f"compile({src[:60]!r}...) did not finish within 6 s", {"kind": "compile", "src": src})
+                return False
     try:
         guarded_compile(env, src, 60)
         return True
